@@ -82,4 +82,20 @@ CLAIMS = {
               "driven (resolution statistics are in the evidence)."),
         technique="static analysis: data-flow summary of the traversal loop, feasible-path enumeration, who-may-call scan, call-graph effect sets",
     ),
+    "C03": dict(
+        text=("Decides history-independence as an effect question over the whole package instead of over sampled histories. "
+              "H1: the mutable locations of the package (every write to an existing object outside constructors, from the effect "
+              "analysis) that a memoised function transitively reads (call graph closure of every lru_cache/cache function) must be "
+              "invalidated by each writer: memo.cache_clear() -- directly, through clear_lru_cache, or through a callee that clears on "
+              "all its exits (fixed point) -- after the write on every normal exit, and before a context manager yields; calls of "
+              "graph-mutating methods from outside the graph classes carry the same obligation. H2: the transitive write set of "
+              "29+ public observers (listing, times, duration, indices, exporters, drawing) must contain no circuit state. H3: the "
+              "temporary override restores, in a finally, the value read from the same location on entry. H4: copy-lookup keys "
+              "have sound identity (C05.K4). Every (memo, location, writer) triple is one obligation."),
+        note=("Known findings (recorded, exit 0): listing re-links first operations of nested blocks (H2) and sub-circuits compare "
+              "by value (H4). Not decided: purity of user callables (DynamicDurationStrategy.duration_call) -- assumed pure; "
+              "hash-key coverage is deliberately not used to exempt writers (an id-hashed Barrier upstream defeats it). A batch "
+              "invalidation guarded by a flag variable would be reported (path-insensitive to the flag)."),
+        technique="static analysis: call-graph closure of memoised functions x effect analysis (write catalogue) with must-invalidate-after-write path check",
+    ),
 }
